@@ -22,7 +22,7 @@ import gen_specs
 import meshgen as mg
 
 MANIFEST = dict(
-    text='Theorems (props/C19.v, 23). Gradient3D: hex_linear_exact / tet_linear_exact -- for every element geometry, every linear field and '
+    text='Theorems (props/C19.v, 24). Gradient3D: hex_linear_exact / tet_linear_exact -- for every element geometry, every linear field and '
          'every output row the value the hexahedral / simplex kernel writes is the exact gradient, for ANY inversion routine meeting the contract '
          '"A * inv A = I for regular A" (np.linalg.inv as Section variable; satisfiable: adjugate inverse) -- stated about Coq definitions that '
          'py2coq_sym regenerates on every run by symbolic execution of Gradient3D._compute_gradient_hexahedral/_simplex incl. the shape-function '
